@@ -1061,7 +1061,7 @@ class VectorQuantize(Module):
 
         shape, device, heads, is_multiheaded, codebook_size, return_loss = x.shape, x.device, self.heads, self.heads > 1, self.codebook_size, exists(indices)
 
-        need_transpose = not self.channel_last and not self.accept_image_fmap
+        need_transpose = not self.channel_last and not self.accept_image_fmap and not only_one
         should_inplace_optimize = exists(self.in_place_codebook_optimizer)
 
         # rearrange inputs
